@@ -23,6 +23,8 @@ func main() {
 			Rule: "random put/delete histories (60..300 writes over 3..12 prefix-related binary keys, unique values) on a real dkv.DB with option classes memtable {40..1M} x WAL {64,300,1M} x target file {60,300,1M} x L0 trigger {1,2,4} x amplification {0,50,200}% x smallest level {60,600,256M} on memory and local file systems; background flush/compaction free-running with seeded yields at every verif hook; Get/ScanPrefix after every write compared with a sequential map, full read-all at seeded points, with tasks running and quiescent; non-trivial = >=2 memtable rotations; distinct by (options, op list) hash; hook-order traces counted separately"},
 		&lib.Prop{ID: "C07", Part: "gated", Level: "exploration", NCases: n(1000, 16000), Run: c07Gated, Assumptions: c07Assume,
 			Rule: "same histories with 2..6 gate episodes: a flush is parked before it starts / after writing its tables but before the swap, or a compaction before its swap; full read-all while parked (sealed memtable present, table written but not swapped, >=2 overlapping L0 tables), then either the task is released INSIDE a Get/ScanPrefix between its level-list snapshot and its memtable read (the read then waits for the swap) or released normally; read-all after; <=3 rotations while a gate is closed; non-trivial = >=1 episode actually parked; distinct by (options, op list) hash"},
+		&lib.Prop{ID: "C18", Part: "live-db", Level: "exploration", NCases: n(300, 6000), Run: c07Gated, Assumptions: c07Assume,
+			Rule: "the concurrent form of C18 inside a live dkv.DB: the gated histories of C07 (a compaction parked before its swap while flushes keep adding level-0 tables, a flush parked before its swap, swaps released inside read windows), every Get/ScanPrefix compared with the sequential map before, during and after each compaction swap; non-trivial = >=1 episode actually parked; distinct by (options, op list) hash"},
 		&lib.Prop{ID: "C08", Part: "checkpoints", Level: "fault_enumeration", NCases: n(300, 8000), Run: c08Case,
 			Assumptions: append([]string{"database objects whose checkpoints are still retained stay referenced (dropping them is C09's subject)", "files are published atomically at Save; a crash image is the set of files durable after the first k storage operations", "a second Checkpoint is only called after the previous save completed (the operator waits synchronously)", "after a restore the job abandons the other checkpoints of the previous incarnation"}, c07Assume...),
 			Rule: "C07 histories with Checkpoint injected at seeded points in six modes (synchronous; writes during the save; save task held before the WAL save / before the list save while writes and flushes continue; flush parked before start / before swap when Checkpoint is called; directly after another checkpoint), with UpdateRetainedCheckpoints, forced GC rounds, restores into another directory and into the SAME directory, promotion of the restored db (chains up to depth 4) and, for every retained checkpoint, restores on CRASH IMAGES cut after individual storage operations following the handle (all when <=30, else first/last + seeded sample); every restored db is compared with the model snapshot taken at the Checkpoint call (Get over the universe, ScanPrefix(nil) and every prefix); non-trivial = >=1 checkpoint restored and compared; distinct by (options, op list) hash"},
